@@ -21,6 +21,10 @@ const c07Index = "c07"
 // soft-deleted" (see /verif/replays/C07/finding_deleted-entrypoint.json).
 const c07FindingEP = "deleted-entrypoint"
 
+// c07FindingVac: vacuum re-elects the first live node as entry point and lowers maxLevel to that node's
+// level (see /verif/replays/C07/finding_vacuum-entrypoint-level.json).
+const c07FindingVac = "vacuum-entrypoint-level"
+
 // c07IsHarnessError: messages starting with "harness:" report that the harness itself could not do
 // its work (engine would not open, ...); they make the run inconclusive, never a violation.
 func c07IsHarnessError(msg string) bool { return strings.Contains(msg, "harness: ") }
@@ -334,7 +338,7 @@ func (r *c07Rng) next() uint64 {
 	return z ^ (z >> 31)
 }
 func (r *c07Rng) float() float64 { return float64(r.next()>>11) / float64(1<<53) }
-func (r *c07Rng) intn(n int) int  { return int(r.next() % uint64(n)) }
+func (r *c07Rng) intn(n int) int { return int(r.next() % uint64(n)) }
 func (r *c07Rng) norm() float64 {
 	u1 := r.float()
 	if u1 < 1e-300 {
